@@ -111,6 +111,28 @@ Theorem clip_axis_aligned_eq_closed_form :
     clip_area Qops (rect_vertices Qops l) (rect_vertices Qops r) == aa_inter Qops (to_ltwh Qops l) (to_ltwh Qops r).
 Proof. exact clip_axis_aligned_lemma. Qed.
 
+(* ... and so, for unrotated boxes, the GENERAL IoU (too_far pre-check, clipper, shoelace, None on zero) is the
+   closed-form IoU end to end: symmetric, in (0,1] when present, absent exactly when the open rectangles do not meet *)
+Theorem iou_unrotated_eq_closed_form :
+  forall l r : qbox, valid_box l -> valid_box r -> unrotated l -> unrotated r ->
+    oeq (iou Qops l r)
+        (iou_of Qops (aa_inter Qops (to_ltwh Qops l) (to_ltwh Qops r)) (box_area Qops l) (box_area Qops r)).
+Proof. exact iou_unrotated_lemma. Qed.
+
+Theorem iou_unrotated_sym :
+  forall l r : qbox, valid_box l -> valid_box r -> unrotated l -> unrotated r -> oeq (iou Qops l r) (iou Qops r l).
+Proof. exact iou_unrotated_sym_lemma. Qed.
+
+Theorem iou_unrotated_in_unit_interval :
+  forall (l r : qbox) v, valid_box l -> valid_box r -> unrotated l -> unrotated r ->
+    iou Qops l r = Some v -> 0 < v <= 1.
+Proof. exact iou_unrotated_range_lemma. Qed.
+
+Theorem iou_unrotated_absent_iff_no_overlap :
+  forall l r : qbox, valid_box l -> valid_box r -> unrotated l -> unrotated r ->
+    (iou Qops l r = None <-> ~ exists x y, in_open (to_ltwh Qops l) x y /\ in_open (to_ltwh Qops r) x y).
+Proof. exact iou_unrotated_none_iff_lemma. Qed.
+
 (* the cheap pre-check: symmetric, and never true for two boxes that share a point *)
 Theorem too_far_sym : forall l r : qbox, too_far Qops l r = too_far Qops r l.
 Proof. exact too_far_sym_lemma. Qed.
